@@ -1232,6 +1232,52 @@ def _shift_term(t, lo, bo):
     return q
 
 
+def _subst_const_params(fj, full):
+    """A const-generic helper (`fn take<const N: usize>(..)`) is extracted once, with `N` symbolic; the call names the value
+    (`take::<2>`).  With exactly one const parameter used in the body and exactly one integer in the call's generic arguments the
+    value is substituted (operands and type strings), so the inlined copy is the code written out with the literal."""
+    import re
+    mm = re.search(r"::<([^<>]*)>$", full or "")
+    if not mm:
+        return fj
+    nums = [a.strip() for a in mm.group(1).split(",") if re.fullmatch(r"\s*\d+(_[iu](8|16|32|64|128|size))?\s*", a)]
+    names = set()
+
+    def scan(x):
+        if isinstance(x, dict):
+            if x.get("k") == "const" and "bits" not in x and isinstance(x.get("text"), str) and re.fullmatch(r"[A-Z][A-Z0-9_]*", x["text"]):
+                names.add(x["text"])
+            for v in x.values():
+                scan(v)
+        elif isinstance(x, list):
+            for v in x:
+                scan(v)
+    scan(fj["blocks"])
+    if len(nums) != 1 or len(names) != 1:
+        return fj
+    name = names.pop()
+    val = int(re.match(r"\d+", nums[0]).group(0))
+    pat = re.compile(r"\b%s\b" % re.escape(name))
+
+    def sub(x, key=None):
+        if isinstance(x, dict):
+            if x.get("k") == "const" and "bits" not in x and x.get("text") == name:
+                y = dict(x)
+                y["text"] = "%d_%s" % (val, x.get("ty", "usize"))
+                y["bits"] = val
+                return y
+            return {k: sub(v, k) for k, v in x.items()}
+        if isinstance(x, list):
+            return [sub(v, key) for v in x]
+        if isinstance(x, str) and key in ("ty", "s"):
+            return pat.sub(str(val), x)
+        return x
+    out = dict(fj)
+    out["blocks"] = sub(fj["blocks"])
+    out["locals"] = sub(fj["locals"])
+    return out
+
+
 def inline_body(crate, bj, inlinable, depth=0, _stack=()):
     """return a body JSON in which every direct call of an inlinable crate-local function is spliced in"""
     if depth > 4:
@@ -1250,6 +1296,7 @@ def inline_body(crate, bj, inlinable, depth=0, _stack=()):
             bp = c.body_path
             if bp and bp in inlinable and bp != bj["path"] and bp not in _stack:
                 fj = _nrvo(inline_body(crate, inlinable[bp], inlinable, depth + 1, _stack + (bj["path"],)))
+                fj = _subst_const_params(fj, t["func"]["fn"].get("full"))
                 if len(t["args"]) == fj["arg_count"]:
                     lo = len(locals_)
                     bo = len(blocks)
@@ -1822,6 +1869,134 @@ def desugar_closures(crate, bj, inlinable, depth=0):
     return out
 
 
+def deref_subst(bj):
+    """Normal-form step: a reference local that is created once as `r = &mut P` / `&P` (P built from derefs and field projections
+    of a stable base: an argument or a once-defined local), possibly handed on through plain moves, and that is used ONLY through
+    `*r` (never passed to a call, stored, compared or returned) is eliminated: every `(*r).rest` becomes `P.rest` and the borrow
+    itself is dropped.  After this a helper taking `state: &mut u32`, inlined at a call that passes `&mut self.state_id`, reads and
+    writes `self.state_id` exactly like the code written in place."""
+    import copy
+    blocks = bj["blocks"]
+    nargs = bj["arg_count"]
+    defs = {}
+    for bi, blk in enumerate(blocks):
+        if blk["cleanup"]:
+            continue
+        for si, st in enumerate(blk["stmts"]):
+            if st["k"] == "assign" and not st["lhs"]["proj"]:
+                defs.setdefault(st["lhs"]["local"], []).append((bi, si, st["rv"]))
+            elif st["k"] == "assign":
+                defs.setdefault(st["lhs"]["local"], []).append((bi, si, None)) if not any(pe["k"] == "deref" for pe in st["lhs"]["proj"]) else None
+        t = blk["term"]
+        if t["k"] == "call" and t.get("dest") is not None:
+            defs.setdefault(t["dest"]["local"], []).append((bi, None, "call"))
+
+    def stable(l):
+        return (1 <= l <= nargs and not defs.get(l)) or (l > nargs and len(defs.get(l, [])) == 1)
+
+    target = {}
+
+    def resolve(l, depth=0):
+        if l in target:
+            return target[l]
+        if depth > 6 or l <= nargs or l == 0:
+            return None
+        d = defs.get(l, [])
+        if len(d) != 1 or d[0][2] in (None, "call"):
+            return None
+        rv = d[0][2]
+        if rv["k"] == "ref" and "place" in rv:
+            P = rv["place"]
+            if all(pe["k"] in ("deref", "field") for pe in P["proj"]) and P["proj"] and stable(P["local"]) and P["local"] != l:
+                return P
+            return None
+        if rv["k"] == "use" and rv["op"]["k"] in ("move", "copy") and not rv["op"]["place"]["proj"]:
+            return resolve(rv["op"]["place"]["local"], depth + 1)
+        return None
+    cands = {}
+    for l in list(defs):
+        P = resolve(l)
+        if P is not None:
+            cands[l] = P
+    if not cands:
+        return bj
+    # every occurrence must be `(*r)...` or the hand-on move `r2 = move r` between candidates (or r's own definition)
+    bad = set()
+    for bi, blk in enumerate(blocks):
+        for si, st in enumerate(blk["stmts"]):
+            own = None
+            if st["k"] == "assign" and not st["lhs"]["proj"] and st["lhs"]["local"] in cands:
+                own = st["lhs"]["local"]
+            for pl in _places(st, []):
+                l = pl.get("local")
+                if l not in cands:
+                    continue
+                if "proj" not in pl:
+                    bad.add(l)
+                elif pl is st.get("lhs") and own == l:
+                    continue
+                elif pl["proj"] and pl["proj"][0]["k"] == "deref":
+                    continue
+                elif own is not None and st["rv"]["k"] == "use" and st["rv"]["op"].get("place") is pl and not pl["proj"]:
+                    continue                   # r2 = move r
+                else:
+                    bad.add(l)
+        for pl in _places(blk["term"], []):
+            l = pl.get("local")
+            if l in cands and not ("proj" in pl and pl["proj"] and pl["proj"][0]["k"] == "deref"):
+                bad.add(l)
+    # a hand-on chain is only as good as its weakest member
+    changed = True
+    while changed:
+        changed = False
+        for l in list(cands):
+            if l in bad:
+                continue
+            d = defs[l][0][2]
+            if d["k"] == "use":
+                src = d["op"]["place"]["local"]
+                if src in bad or src not in cands:
+                    bad.add(l)
+                    changed = True
+        for l in list(cands):
+            if l in bad:
+                continue
+            # r is moved on to r2: r2 must be a live candidate too
+            for bi, blk in enumerate(blocks):
+                for st in blk["stmts"]:
+                    if st["k"] == "assign" and not st["lhs"]["proj"] and st["rv"]["k"] == "use" and st["rv"]["op"]["k"] in ("move", "copy") and \
+                            not st["rv"]["op"]["place"]["proj"] and st["rv"]["op"]["place"]["local"] == l and \
+                            (st["lhs"]["local"] not in cands or st["lhs"]["local"] in bad):
+                        bad.add(l)
+                        changed = True
+    live = {l: P for l, P in cands.items() if l not in bad}
+    if not live:
+        return bj
+    out = copy.deepcopy(bj)
+
+    def rewrite(pl):
+        q = dict(pl)
+        q["proj"] = list(pl["proj"])
+        for _ in range(8):         # a borrow of a borrow: `r2 = &mut *r`
+            if q["local"] in live and q["proj"] and q["proj"][0]["k"] == "deref":
+                P = live[q["local"]]
+                q["local"] = P["local"]
+                q["proj"] = copy.deepcopy(P["proj"]) + q["proj"][1:]
+            else:
+                break
+        q["proj"] = _map_places(q["proj"], rewrite)
+        return q
+    for blk in out["blocks"]:
+        newst = []
+        for st in blk["stmts"]:
+            if st["k"] == "assign" and not st["lhs"]["proj"] and st["lhs"]["local"] in live:
+                continue                       # the borrow / its hand-on move is gone
+            newst.append(_map_places(st, rewrite))
+        blk["stmts"] = newst
+        blk["term"] = _map_places(blk["term"], rewrite)
+    return out
+
+
 def sroa_tuples(bj):
     """Scalar replacement of a tuple that only carries values across a (now inlined) call boundary: a local defined once as
     `t = (a, b, ..)` from plain places, never borrowed or used whole, whose every use is a field read `t.i`, is eliminated by
@@ -1980,7 +2155,7 @@ def normalise_crate(crate, anchors):
         if j["kind"] == "Promoted":
             newj[p] = j
         else:
-            newj[p] = ssa_split(sroa_tuples(desugar_closures(crate, inline_body(crate, j, inlinable), inlinable)))
+            newj[p] = ssa_split(sroa_tuples(deref_subst(desugar_closures(crate, deref_subst(inline_body(crate, j, inlinable)), inlinable))))
     crate.helper_bodies = {}
     crate.bodies = {}
     for p, j in newj.items():
